@@ -317,6 +317,15 @@ func (c *Ctx) ruleForward(rule string) {
 					c.R.Bad(rule, k, c.M.InstrPos(hit.call), tname+"."+method+" visits only one element of "+ch.name, "the call on the collection's elements is not inside a loop")
 					continue
 				}
+				// a single child is visited on every path on which the method can report success (a collection may be
+				// empty: its loop need not run)
+				if !ch.coll {
+					if passes, _ := c.mustPassAll(fn, func(in ssa.Instruction) bool { return in == ssa.Instruction(hit.call) }); !passes {
+						c.R.Bad(rule, k, c.M.InstrPos(hit.call), tname+"."+method+" can return without having visited its child "+ch.name,
+							"some path returns success before the call on the child (an early return for a flag of the container): references below "+ch.name+" stay unlinked / unchecked on that path, and the operations that look at the type first (Validate, Serialize, compatibility, the shorthand probe) panic on them although the check had passed")
+						continue
+					}
+				}
 				if method == "ApplyNamespace" {
 					// arguments unchanged (the scope's table substitution is checked separately)
 					args := hit.call.Call.Args
